@@ -12,15 +12,17 @@ CFG = {
                   "the expression of `yaml::locate_offset_detailed` is evaluated by `succinctly yq -s -o json` over the slurped "
                   "stream and must equal the node's value in the generated tree (for a key: the value the key names); `at_offset` "
                   "must return the token's own value; `succinctly yq-locate --offset` must print the library's expression. The "
-                  "path reconstruction of yaml/locate.rs is NOT modelled in Lean (no theorem beyond C14's loadRef agreement, "
-                  "re-evaluated per request).",
+                  "path reconstruction of yaml/locate.rs is NOT modelled in Lean; the only theorem (located_documents_are_loaded, "
+                  "from C14's render_load) says that the generated documents the offsets refer to are what the reference loader "
+                  "reads, for every admissible stream.",
     "level_note": "Streams showing a presentation feature with a recorded C14 loader finding are not generated here.",
     "technique": "differential execution with an in-process oracle derived from the generator's own token table",
     "variants": [{"features": [], "env": {"SV_CLI": _CLI}}],
     "needs_cli": True,
     "lean_modules": ["SuccinctlyVerif.Props.C29"],
-    "lean_files": ["SuccinctlyVerif/Props/C29.lean"],
+    "lean_files": ["SuccinctlyVerif/Props/C29.lean", "SuccinctlyVerif/Proof/YamlRefDocs.lean"],
+    "required_theorems": ["SV.Props.C29.located_documents_are_loaded"],
     "generated": [],
-    "rule": "request = one generated stream with up to 60 offsets inside scalars/keys",
+    "rule": "request = one generated stream with up to 60 offsets inside scalars/keys; large documents (60-400 nodes): every token start",
     "explanation": "locate expression evaluates to the located node's value; at_offset yields the token's own value; CLI = library",
 }
